@@ -242,6 +242,8 @@ class RankFacts:
         if fn0 is not None and fn0.endswith(":get_distance") and len(s.args) >= 3:
             rs = [self.rank(a, depth + 1) for a in s.args[1:3] if isinstance(a, S)]
             return max(rs) - 1 if rs and all(r is not None for r in rs) else None
+        if fn0 is not None and fn0.endswith(":get_distance_matrix") and len(s.args) >= 2 and isinstance(s.args[1], S):
+            return self.rank(s.args[1], depth + 1)        # [..., n, d] coordinates -> [..., n, n] distances
         if fn0 in ("torch.zeros_like", "torch.ones_like", "torch.full_like") and len(s.args) >= 2 and isinstance(s.args[1], S):
             return self.rank(s.args[1], depth + 1)
         s0 = s
